@@ -481,7 +481,7 @@ func (f *File) Read(p []byte) (n int, err error) {
 	})
 
 	if !f.flags.Read {
-		return -1, os.ErrPermission
+		return 0, os.ErrPermission
 	}
 
 	if len(p) <= 0 {
@@ -489,7 +489,7 @@ func (f *File) Read(p []byte) (n int, err error) {
 	}
 
 	if f.info.IsDir() {
-		return -1, config.ErrIsDirectory
+		return 0, config.ErrIsDirectory
 	}
 
 	f.ioLock.Lock()
@@ -540,7 +540,7 @@ func (f *File) Read(p []byte) (n int, err error) {
 	}
 
 	if err != nil {
-		return -1, err
+		return 0, err
 	}
 
 	return copy(p, w.Bytes()), nil
@@ -554,7 +554,7 @@ func (f *File) ReadAt(p []byte, off int64) (n int, err error) {
 	})
 
 	if !f.flags.Read {
-		return -1, os.ErrPermission
+		return 0, os.ErrPermission
 	}
 
 	if len(p) <= 0 {
@@ -562,11 +562,11 @@ func (f *File) ReadAt(p []byte, off int64) (n int, err error) {
 	}
 
 	if f.info.IsDir() {
-		return -1, config.ErrIsDirectory
+		return 0, config.ErrIsDirectory
 	}
 
 	if _, err := f.Seek(off, io.SeekStart); err != nil {
-		return -1, err
+		return 0, err
 	}
 
 	return f.Read(p)
@@ -594,23 +594,23 @@ func (f *File) Write(p []byte) (n int, err error) {
 	})
 
 	if f.info.IsDir() {
-		return -1, config.ErrIsDirectory
+		return 0, config.ErrIsDirectory
 	}
 
 	if !f.flags.Write {
-		return -1, os.ErrPermission
+		return 0, os.ErrPermission
 	}
 
 	f.ioLock.Lock()
 	defer f.ioLock.Unlock()
 
 	if err := f.enterWriteMode(); err != nil {
-		return -1, err
+		return 0, err
 	}
 
 	n, err = f.writeBuf.Write(p)
 	if err != nil {
-		return -1, err
+		return 0, err
 	}
 
 	return n, nil
@@ -624,22 +624,22 @@ func (f *File) WriteAt(p []byte, off int64) (n int, err error) {
 	})
 
 	if f.info.IsDir() {
-		return -1, config.ErrIsDirectory
+		return 0, config.ErrIsDirectory
 	}
 
 	if !f.flags.Write {
-		return -1, os.ErrPermission
+		return 0, os.ErrPermission
 	}
 
 	f.ioLock.Lock()
 	defer f.ioLock.Unlock()
 
 	if err := f.enterWriteMode(); err != nil {
-		return -1, err
+		return 0, err
 	}
 
 	if _, err := f.seekWithoutLocking(off, io.SeekStart); err != nil {
-		return -1, err
+		return 0, err
 	}
 
 	return f.writeBuf.Write(p)
@@ -652,18 +652,18 @@ func (f *File) WriteString(s string) (ret int, err error) {
 	})
 
 	if f.info.IsDir() {
-		return -1, config.ErrIsDirectory
+		return 0, config.ErrIsDirectory
 	}
 
 	if !f.flags.Write {
-		return -1, os.ErrPermission
+		return 0, os.ErrPermission
 	}
 
 	f.ioLock.Lock()
 	defer f.ioLock.Unlock()
 
 	if err := f.enterWriteMode(); err != nil {
-		return -1, err
+		return 0, err
 	}
 
 	return f.writeBuf.Write([]byte(s))
